@@ -393,6 +393,9 @@ def check_flow_derivatives(flow_mod):
 # ------------------------------------------------------------------------------------------------
 # 4. formulas over symbolic derivative entries
 # ------------------------------------------------------------------------------------------------
+loader_ref = [None]
+
+
 def formulas_section(flow_mod):
     out = []
     requested = []
@@ -461,6 +464,28 @@ def formulas_section(flow_mod):
             out.append(f"(* lie_bracket(v, u), D = {D}: jv = Jacobian of the first argument, ju of the second *)\n"
                        f"Definition gen_lie{D} ({' '.join(args)} : K) : list K :=\n  [" +
                        "; ".join(st.to_coq(e) for e in r.a.reshape(-1)) + "].\n")
+            # mode='bspline': the Jacobians live on the evaluated (output) grid, so u and v must be evaluated there too
+            bsm = loader_ref[0].load("deepali.core.bspline")
+            evals = []
+
+            def ev_stub(data, stride=None, **kw):
+                if kw:
+                    raise TraceError(f"lie_bracket(mode='bspline') evaluates the fields with unexpected options {kw}")
+                pfx = {id(u): "u", id(v): "v"}.get(id(data))
+                if pfx is None:
+                    raise TraceError("lie_bracket(mode='bspline') evaluates something else than its arguments")
+                evals.append((pfx, stride))
+                return field(D, pfx + "e")
+
+            strides = tuple(range(2, 2 + D))
+            with patched(bsm, "evaluate_cubic_bspline", ev_stub):
+                rb = flow_mod.lie_bracket(v, u, mode="bspline", stride=strides)
+            if sorted(evals) != [("u", strides), ("v", strides)]:
+                raise TraceError(f"lie_bracket(mode='bspline') evaluates {evals}, expected u and v with the given stride")
+            for i in range(D):
+                want_e = ren(r.a.reshape(-1)[i], dict([(f"u{k}", f"ue{k}") for k in range(D)] + [(f"v{k}", f"ve{k}") for k in range(D)]))
+                if not sem_same(rb.a.reshape(-1)[i], want_e):
+                    raise TraceError("lie_bracket(mode='bspline') is not Jac(v) u - Jac(u) v with u, v evaluated on the output grid")
             # the inputs must not be modified
             for i in range(D):
                 if not u.a[(0, i) + (0,) * D].same(E.var(f"u{i}")) or not v.a[(0, i) + (0,) * D].same(E.var(f"v{i}")):
@@ -498,13 +523,39 @@ def check_conv1d_padding(img, enum_mod):
                         raise TraceError(f"conv1d(padding={pad}, dim={dim}) at {idx} is not the {kind}-padded correlation")
 
 
+def check_integer_data(img):
+    """finite_differences / spatial_derivatives on integer data: the spacing must be converted to a floating point type (the
+    data are cast to float first), never to the integer dtype of the data"""
+    seen = []
+    orig = img.as_tensor
+
+    def rec(arg, dtype=None, device=None):
+        seen.append(dtype)
+        return orig(arg, dtype=dtype, device=device)
+
+    data = st.Tensor(sym((1, 1, 3, 4)).a, dtype=st.int64)
+    with patched(img, "as_tensor", rec):
+        for mode in MODES[:4]:
+            seen.clear()
+            r = img.finite_differences(data, 0, mode=mode, spacing=0.5)
+            if not seen or any(dt is None or not dt.is_floating_point for dt in seen):
+                raise TraceError(f"finite_differences({mode}) on integer data converts the spacing to {seen} (must be a floating point dtype)")
+            if not r.dtype.is_floating_point:
+                raise TraceError("finite_differences on integer data does not return floating point values")
+            ref = img.finite_differences(st.Tensor(data.a, dtype=st.float32), 0, mode=mode, spacing=0.5)
+            if not trlib.same_tensor(r.a, ref.a):
+                raise TraceError("finite_differences on integer data differs from the result on the same data as float")
+
+
 def generate(loader):
     img = loader.load("deepali.core.image")
     flow_mod = loader.load("deepali.core.flow")
+    loader_ref[0] = loader
     out = ["Section Gen.", "Context {K : fld}.", ""]
     with simple_float_literals(), int_tolist():
         s, _ = stencil_section(img)
         check_conv1d_padding(img, loader.load("deepali.core.enum"))
+        check_integer_data(img)
         kernels = avg_kernels(img)
         check_spatial_derivatives(img, kernels)
         check_gaussian_mode(img)
